@@ -102,6 +102,38 @@ fn c05_2a_commands_and_shared_time() {
     core::mem::forget(h);
 }
 
+// @ob id=C07.2f,C05.2c strength=bounded tier=quick bound="single thread; every subset of {start, pause, stop} issued in one gap; any clock state" fn=clock.rs::Clock::on_start_processing
+// @req any clock state (not started / started at any time, ticking or not); any subset of the handle's commands issued before one callback
+// @ens the callback drains every command reader of the clock (nothing stays pending, so nothing can be applied late), and a
+// @ens later callback with nothing new leaves a clock that has meanwhile moved on untouched (no command is applied late or twice)
+#[kani::proof]
+#[kani::unwind(4)]
+fn c07_2f_clock_commands_are_drained_and_never_applied_late() {
+    let id = ClockId(any_small_key(2));
+    let (mut c, mut h) = Clock::new(Value::Fixed(ClockSpeed::TicksPerSecond(1.0)), id);
+    c.ticking = kani::any();
+    c.state = if kani::any() { State::NotStarted } else { State::Started { ticks: kani::any(), fractional_position: any_f64_in(0.0, 0.9999999) } };
+    let (do_start, do_pause, do_stop): (bool, bool, bool) = (kani::any(), kani::any(), kani::any());
+    if do_start { h.start(); }
+    if do_pause { h.pause(); }
+    if do_stop { h.stop(); }
+    c.on_start_processing();
+    if do_stop { assert!(c.state == State::NotStarted, "C07.2f: a stop issued before the callback has taken effect in it"); }
+    // nothing stays pending after the callback, whatever the clock's state was
+    assert!(c.command_readers.set_ticking.read().is_none(), "C07.2f: set_ticking reader drained by the callback");
+    assert!(c.command_readers.reset.read().is_none(), "C07.2f: reset reader drained by the callback");
+    assert!(c.command_readers.set_speed.read().is_none(), "C07.2f: set_speed reader drained by the callback");
+    // the clock moves on (restarted and running), nothing new is issued: the next callback must not touch it
+    c.ticking = true;
+    c.state = State::Started { ticks: 7, fractional_position: 0.25 };
+    c.on_start_processing();
+    assert!(c.ticking && c.state == State::Started { ticks: 7, fractional_position: 0.25 }, "C07.2f: no command is applied late or twice");
+    kani::cover!(do_stop && do_start);
+    kani::cover!(!do_stop && !do_start && !do_pause);
+    core::mem::forget(c);
+    core::mem::forget(h);
+}
+
 // @ob id=C05.1c,C06.8a strength=complete tier=quick fn=clock.rs::Clock::update
 // @req a clock in any ticking state (ticking or paused, started or not); Parameter::update replaced by its recording contract stub (C06.2)
 // @ens the clock's speed parameter is advanced exactly once per update with the same dt, whether or not the clock is ticking (a speed tween issued while the clock is paused or not yet started progresses in audio time and is due when the clock starts)
